@@ -232,16 +232,19 @@ CLAIMS = [
     },
     {
         'property_id': 'C17',
-        'level': 'exploration',
-        'technique': 'bounded stand-in for contract-based verification: postconditions of the real structure builders evaluated for '
-                     'every outcome of the numpy random calls (path oracle; exhaustive for the smallest sizes, sampled beyond)',
-        'text': 'Labelled bounded, never counted as proved: the builders are pure Python over lists of data-dependent length and no '
-                'verifier for Python is available; the only non-determinism (numpy random calls) is replaced by an oracle and the '
-                'postconditions (rank-sized lattices, every feature used, balanced RTL usage, no repeats, pairs cover, monotone slot '
-                'wiring, determinism in the seed) are evaluated on every returned structure. One known finding (Crystals, zero-'
-                'importance feature).',
-        'note': 'Bounded: <= 6 features / inputs, <= 5 lattices, rank <= 3; oracle outcomes exhaustive only for <= 3-4 inputs; '
-                'Crystals scores from a small grid. Trusted: seeded numpy generators are deterministic.',
+        'level': 'other',
+        'technique': 'contract-based deductive verification of RTL._get_rtl_structure for every seed (function cut mechanically '
+                     'at its while loop: prefix under the shuffle contract with ghost state, loop invariant of the swap loop on '
+                     'symbolic slots, suffix on every monotonicity pattern) + labelled bounded stand-in for the other builders',
+        'text': 'RTL structure: rank-sized lattices, every feature used, usage counts within one, monotone slot wiring, lattice '
+                'labelling and seeding hold for every permutation the shuffles can apply (shuffle contract + ghost counting, loop '
+                'invariant, AST frame check); composition of the three segments argued in DESIGN.md. Random ensemble, pairs cover '
+                'and Crystals are pure Python over lists of data-dependent length: labelled bounded, never counted as proved - numpy '
+                'random calls replaced by an enumerated oracle, postconditions evaluated on every returned structure. One known '
+                'finding (Crystals, zero-importance feature).',
+        'note': 'Deductive part per (input groups, num_lattices, lattice_rank) configuration; counting lemma and composition applied '
+                'outside the solver. Bounded part: <= 6 features, <= 5 lattices, rank <= 3; oracle outcomes exhaustive only for <= '
+                '3-4 inputs; Crystals scores from a small grid. Trusted: numpy RandomState determinism, list.sort, itertools.',
         'design_ref': 'DESIGN.md section 4 C17',
     },
     {
